@@ -16,7 +16,8 @@ from mc import battery, env, fsparse, par, schedx, seqx, world
 from mc.battery import Exc, call, p64
 
 MOD = 'checks.c06_undo'
-KINDS = ['new', 'new2', 'mod', 'mod2', 'same', 'stalegone', 'undo', 'undo2', 'reopen',
+KINDS = ['new', 'new2', 'mod', 'mod2', 'same', 'stalegone', 'undo', 'undo2',
+         'undotry', 'reopen',
          'pack']
 
 
